@@ -184,7 +184,7 @@ def extract_inputs(trace):
         iv = _val(v)
         if iv is not None:
             vals[name] = iv
-            if "[" not in name:
+            if "[" not in name and not st.get("hidden"):  # hidden = the zero-initialisation of the declaration
                 seq.setdefault(name, []).append(iv)
     for name, lst in seq.items():
         if len(lst) > 1:
